@@ -87,6 +87,9 @@ const WORDS: &[&str] = &[
     // punctuation that file formats tend to give a meaning to (comments, separators, quotes, escapes)
     // pairs that differ only by Unicode normalisation / compatibility
     "fi", "\u{00c5}", "A\u{030a}", "\u{ff41}b", "x\u{00b2}", "x2",
+    // words that begin with a grapheme-extending character (they attach to whatever precedes them,
+    // a line break excepted) or end with a prepending one
+    "\u{0301}", "\u{0308}a", "\u{200d}b", "a\u{0600}",
     "#a", "#", "a#b", ";b", "//", "%c", "\"a\"", "'b'", "a\\b", "@ab", "&", "*a*", "a=b", "a:b", "[c]", "{a}", "a|b", "~", "!", "?b",
 ];
 
